@@ -510,7 +510,8 @@ func scenarios(quick bool) []scenario {
 	if !quick {
 		spb = 3
 	}
-	for _, roles := range [][]string{{"P1", "C1"}, {"P2", "C3", "X"}, {"P2", "X"}, {"X", "X"}, {"P1", "O", "X"}, {"P1", "P1", "C3", "X"}} {
+	for _, roles := range [][]string{{"P1", "C1"}, {"P2", "C3", "X"}, {"P2", "X"}, {"X", "X"}, {"P1", "O", "X"}, {"P1", "P1", "C3", "X"},
+		{"S2", "S2"}, {"S2", "S2", "C3"}, {"S1", "S1", "S1", "X"}, {"G2", "G2"}, {"G1", "G1", "C2"}} {
 		for _, c := range caps {
 			out = append(out, scenario{Cap: c, Roles: roles, Bound: spb, Script: true})
 		}
